@@ -515,9 +515,116 @@ def target_parser_process_loop():
     return (f"{PR.MOD}:{qual}[tokenise+loop]", PR.MOD, qual, run)
 
 
+def target_parser_process_prologue():
+    """Parser.process, the string prologue: `string = string.strip()` and the test that short-cuts the empty circuit are total
+    (no exception of any kind on any string).  String contents are opaque: every str method used must be one of the total
+    primitives, every index into a list of parts must be provably in range."""
+    qual = "Parser.process"
+
+    def run(sess: Session):
+        from pyvc.core import strip_docstring
+        from pyvc.values import StrV
+        fn = find_def(PR.MOD, qual)
+        body = strip_docstring(fn.body)
+        pro = []
+        for s_ in body:
+            if isinstance(s_, ast.If) and "Tokenizer" in ast.unparse(s_):
+                pro.append(ast.Expr(value=s_.test))
+                break
+            pro.append(s_)
+        else:
+            sess.unsupported("prologue of Parser.process not found", fn.lineno)
+            return
+        for n in pro:
+            ast.fix_missing_locations(n)
+        ex = _parser_executor(sess, contracts=())
+        st = State()
+        me, T0, S0 = PR.new_parser(st)
+        sub = ast.FunctionDef(name=fn.name, args=fn.args, body=pro, decorator_list=[], lineno=fn.lineno, col_offset=0)
+        ast.fix_missing_locations(sub)
+        node = ast.parse("f()").body[0].value
+        node.lineno = fn.lineno
+        outs = ex.call_funcv(FuncV(sub, PR.MOD, qualname=qual, bound_self=me), [StrV(note="string")], {"version": z3.IntVal(-1)}, None, st, node)
+        n_ok = 0
+        for val, s1 in outs:
+            if isinstance(val, Raised):
+                sess.check("exc-class", s1.pc, z3.BoolVal(False), val.exc.line, label=f"process-prologue:{val.exc.name}")
+                continue
+            n_ok += 1
+        sess.check("cover", [], z3.BoolVal(n_ok >= 1), 0, label="prologue reaches the branch")
+        sess.check("post", [], z3.BoolVal(len(pro) >= 2), 0, label="prologue = strip + empty-circuit test")
+    return (f"{PR.MOD}:{qual}[prologue]", PR.MOD, qual, run)
+
+
+def target_exception_constructors():
+    """exceptions.py: constructing any of the library's parsing errors is total -- the constructor itself never raises, so the
+    class of the exception that escapes parse_cdc is the one named at the `raise`.  Every `__init__` is executed with the
+    argument shapes of its call sites in parser.py (tokens with a .value, element classes with get_symbol(), strings, lists of
+    keys of ANY length including empty, finite or infinite floats), f-strings evaluated strictly."""
+    EXC = "exceptions"
+
+    def run(sess: Session):
+        from pyvc.core import module_ast
+        from pyvc.symex import Contract, Executor
+        from pyvc.values import Obj, StrV
+        tree = module_ast(EXC)
+        n_ctor = 0
+        for cls in tree.body:
+            if not isinstance(cls, ast.ClassDef):
+                continue
+            init = next((m for m in cls.body if isinstance(m, ast.FunctionDef) and m.name == "__init__"), None)
+            if init is None:
+                continue
+            n_ctor += 1
+            ex = Executor(sess, EXC, cls.name)
+            from pyvc import builtins as B_
+            B_.install(ex)
+            ex.strict_fstrings = True
+            ex.exc_mode = "oblige"
+            st = State()
+            me = st.alloc(Obj(cls.name, {}))
+
+            def super_(ex_, s, a, kw, node):
+                return [(s.alloc(Obj("super", {})), s)]
+            ex.consts["super"] = ("builtin", super_)
+            ex.contracts["super.__init__"] = Contract("super.__init__", lambda ex_, s, recv, a, kw, line: [(NONE, s)])
+            ex.contracts["get_symbol"] = Contract("get_symbol", lambda ex_, s, recv, a, kw, line: [(StrV(note="symbol"), s)])
+            argv = []
+            for p_ in init.args.args[1:]:
+                nm = p_.arg
+                if nm in ("token", "identifier"):
+                    argv.append(st.alloc(Obj("Token", {"value": StrV(note="token text") if cls.name != "InvalidNumericValue" else fresh("tokval", z3.RealSort())})))
+                elif nm == "Class":
+                    argv.append(st.alloc(Obj("ElementClass", {})))
+                elif nm.endswith("keys"):
+                    L = ListV(fresh(nm, z3.ArraySort(z3.IntSort(), z3.IntSort())), z3.IntVal(0), fresh(nm + ".n", z3.IntSort()), wrap=lambda v: StrV(note="key"))
+                    st.pc.append(L.hi >= 0)
+                    argv.append(st.alloc(L))
+                elif nm in ("value", "limit"):
+                    argv.append(fresh(nm, z3.RealSort()))
+                else:
+                    argv.append(StrV(note=nm))
+            node = ast.parse("f()").body[0].value
+            node.lineno = init.lineno
+            try:
+                outs = ex.call_funcv(FuncV(init, EXC, qualname=f"{cls.name}.__init__", bound_self=me), argv, {}, None, st, node)
+            except Unsupported as u:
+                sess.unsupported(f"{cls.name}.__init__: {u}", init.lineno)
+                continue
+            ok = 0
+            for val, s1 in outs:
+                if isinstance(val, Raised):
+                    sess.check("exc-class", s1.pc, z3.BoolVal(False), val.exc.line, label=f"{cls.name}(...) itself raises {val.exc.name}")
+                else:
+                    ok += 1
+            sess.check("cover", [], z3.BoolVal(ok >= 1), init.lineno, label=f"{cls.name}: constructor returns")
+        sess.check("cover", [], z3.BoolVal(n_ctor >= 15), 0, label=f"{n_ctor} constructors under contract")
+    return (f"{EXC}:ParsingError subclasses.__init__", EXC, "ParsingError", run)
+
+
 def targets():
     return [target_tokenizer_main_loop(), target_tokenizer_process(), target_parser_main_loop(), target_parser_process_loop(),
-            target_parser_param_limit(), target_parser_param(), target_parser_migrate(), target_parser_process_tail(),
+            target_parser_param_limit(), target_parser_param(), target_parser_migrate(), target_parser_process_tail(), target_parser_process_prologue(), target_exception_constructors(),
             target_parser_connection("LBracket", "RBracket", "Series"), target_parser_connection("LParen", "RParen", "Parallel"),
             target_parser_subcircuit()]
 
